@@ -265,3 +265,85 @@ def render_c(api):
     o.append("\n".join(fns))
     o.append("#ifdef __cplusplus\n} // extern \"C\"\n#endif // __cplusplus\n")
     return "\n".join(o), [b for f, b in out_blocks if f] + list(api.get("foreign_fns", []))
+
+
+# ------------------------------------------------------------------------------------------------ C++ mode
+ZST_DOC_CPP = ZST_DOC
+
+
+def cpp_type(kind):
+    return "CGlueC" if kind == "self" else KINDS[kind][1]
+
+
+def fn_decl_cpp(m):
+    recv = {"ref": "const CGlueC *cont", "mut": "CGlueC *cont", "own": "CGlueC cont"}[m["recv"]]
+    args = "".join(", %s%s%s" % (cpp_type(k), "" if cpp_type(k).endswith("*") else " ", n) for k, n in m["args"])
+    rt = cpp_type(m["ret"])
+    return "%s%s(*%s)(%s%s);" % (rt, "" if rt.endswith("*") else " ", m["name"], recv, args)
+
+
+def render_cpp(api):
+    """the C++ header cbindgen emits for the same API: templates are generic over container and context, so object and group variants
+    do not show up in the text (they are instantiated by the user / the driver)"""
+    o = ["#include <cstdarg>\n#include <cstdint>\n#include <cstdlib>\n#include <ostream>\n#include <new>\n"]
+    b = []
+    used = sorted({ob["trait"] for ob in api["objects"]} | {t for g in api["groups"] for t in g["traits"]})
+    for ti in used:
+        t = api["traits"][ti]
+        if t.get("rettmp"):
+            b.append(RT_DOC + "template<typename CGlueCtx = void>\nstruct %sRetTmp {\n    MaybeUninit<Pair> slot0;\n};\n" % t["name"])
+        else:
+            b.append(ZST_DOC_CPP + "template<typename CGlueCtx = void>\nstruct %sRetTmp;\n" % t["name"])
+    b.insert(0, "struct Pair {\n    uint32_t a;\n    uint64_t b;\n};\n")
+    b.insert(0, "template<typename T = void>\nstruct MaybeUninit;\n")
+    b.append(CARC_DOC + "template<typename T>\nstruct CArc {\n    const T *instance;\n    const T *(*clone_fn)(const T*);\n    void (*drop_fn)(const T*);\n};\n")
+    b.append(CBOX_DOC + "template<typename T>\nstruct CBox {\n    T *instance;\n    void (*drop_fn)(T*);\n};\n")
+    b.append("template<typename T>\nstruct CSliceRef {\n    const T *data;\n    uintptr_t len;\n};\n")
+    b.append("template<typename T, typename F>\nstruct Callback {\n    T *context;\n    bool (*func)(T*, F);\n};\n")
+    b.append("template<typename T>\nusing OpaqueCallback = Callback<void, T>;\n")
+    b.append("using PairCallback = OpaqueCallback<Pair>;\n")
+    done = set()
+
+    def vt(ti):
+        if ti in done:
+            return
+        done.add(ti)
+        t = api["traits"][ti]
+        b.append(VTBL_DOC % t["name"] + "template<typename CGlueC>\nstruct %sVtbl {\n    %s\n};\n" % (t["name"], "\n    ".join(fn_decl_cpp(m) for m in t["methods"])))
+
+    for g in api["groups"]:
+        fields = ["CGlueInst instance;", "CGlueCtx context;"] + ["%sRetTmp<CGlueCtx> ret_tmp_%s;" % (api["traits"][ti]["name"], api["traits"][ti]["name"].lower()) for ti in g["traits"]]
+        b.append("template<typename CGlueInst, typename CGlueCtx>\nstruct %sContainer {\n    %s\n};\n" % (g["name"], "\n    ".join(fields)))
+        for ti in g["traits"]:
+            vt(ti)
+        members = ["const %sVtbl<%sContainer<CGlueInst, CGlueCtx>> *vtbl_%s;" % (api["traits"][ti]["name"], g["name"], api["traits"][ti]["name"].lower()) for ti in g["traits"]]
+        members.append("%sContainer<CGlueInst, CGlueCtx> container;" % g["name"])
+        doc = GROUP_DOC % (" + ".join(api["traits"][ti]["name"] + " < >" for ti in g["traits"]), g["name"])
+        b.append(doc + "template<typename CGlueInst, typename CGlueCtx>\nstruct %s {\n    %s\n};\n" % (g["name"], "\n    ".join(members)))
+    if True:   # the generic single-trait object types are always part of the supported shape (the tool specialises them unconditionally)
+        b.append(OBJCONT_DOC + "template<typename T, typename C, typename R>\nstruct CGlueObjContainer {\n    T instance;\n    C context;\n    R ret_tmp;\n};\n")
+        for ob in api["objects"]:
+            vt(ob["trait"])
+        b.append(OBJ_DOC + "template<typename T, typename V, typename C, typename R>\nstruct CGlueTraitObj {\n    const V *vtbl;\n    CGlueObjContainer<T, C, R> container;\n};\n")
+        seen = set()
+        for ob in api["objects"]:
+            n = api["traits"][ob["trait"]]["name"]
+            if n in seen:
+                continue
+            seen.add(n)
+            b.append("/**\n * Base CGlue trait object for trait %s.\n */\ntemplate<typename CGlueInst, typename CGlueCtx>\nusing %sBase = CGlueTraitObj<CGlueInst, %sVtbl<CGlueObjContainer<CGlueInst, CGlueCtx, %sRetTmp<CGlueCtx>>>, CGlueCtx, %sRetTmp<CGlueCtx>>;\n" % (n, n, n, n, n))
+            b.append("/**\n * CtxBoxed CGlue trait object for trait %s with context.\n */\ntemplate<typename CGlueT, typename CGlueCtx>\nusing %sBaseCtxBox = %sBase<CBox<CGlueT>, CGlueCtx>;\n" % (n, n, n))
+            b.append("/**\n * Boxed CGlue trait object for trait %s with a [`CArc`](cglue::arc::CArc) reference counted context.\n */\ntemplate<typename CGlueT, typename CGlueC>\nusing %sBaseArcBox = %sBaseCtxBox<CGlueT, CArc<CGlueC>>;\n" % (n, n, n))
+            b.append("/**\n * Opaque Boxed CGlue trait object for trait %s with a [`CArc`](cglue::arc::CArc) reference counted context.\n */\nusing %sArcBox = %sBaseArcBox<void, void>;\n" % (n, n, n))
+    foreign = list(api.get("foreign_cpp", []))
+    o.append("\n".join(b + foreign))
+    o.append('extern "C" {\n')
+    fns = []
+    for ob in api["objects"][:1]:
+        n = api["traits"][ob["trait"]]["name"]
+        fns.append("/**\n * Load a plugin.\n */\nint32_t load_plugin(const char *name, MaybeUninit<%sArcBox> *ok_out);\n" % n)
+    for f in api.get("foreign_fns", []):
+        fns.append(f)
+    o.append("\n".join(fns))
+    o.append('} // extern "C"\n')
+    return "\n".join(o), foreign + list(api.get("foreign_fns", []))
